@@ -42,6 +42,7 @@ def main():
             sh('git -C /repo checkout -- .')
             meta['apply_to_repo'] = out[-300:]
         else:
+            saved = {c: open('/verif/evidence/%s.json' % c).read() for c in checks if os.path.exists('/verif/evidence/%s.json' % c)}
             try:
                 for c in checks:
                     for tier in ('quick', 'thorough'):
@@ -64,6 +65,8 @@ def main():
             finally:
                 sh('git -C /repo checkout -- .')
                 sh('/venv/bin/python harness/extract.py', '/verif')     # Generated/* back to the real tree
+                for c, txt in saved.items():                           # evidence files describe the real tree only
+                    open('/verif/evidence/%s.json' % c, 'w').write(txt)
     meta['results'] = results
     caught = [k for k, v in results.items() if v['exit'] == 1]
     with_input = [k for k, v in results.items() if any(x.get('found_failing_input') for x in v['violations'])]
